@@ -265,6 +265,8 @@ int main(void) {
             unsigned char* in = (unsigned char*)malloc(n + 64); unsigned char* out = (unsigned char*)malloc(cap ? cap : 1); size_t consumed = 0, produced = 0, hint, r = 1; int calls = 0, over = 0; char hs[400]; size_t hl = 0;
             memcpy(in, in0, n); memset(in + n, 0xEE, 64);
             ZSTD_DCtx_reset(dctx, ZSTD_reset_session_and_parameters); hint = ZSTD_initDStream(dctx); hs[0] = 0;
+            { char* dp = strtok(NULL, " "); char* save = NULL; char* kv;      /* optional 4th argument dp=<id=val,...> : decompression parameters */
+              if (dp && !strncmp(dp, "dp=", 3)) for (kv = strtok_r(dp + 3, ",", &save); kv; kv = strtok_r(NULL, ",", &save)) { int id, val; if (sscanf(kv, "%d=%d", &id, &val) == 2) ZSTD_DCtx_setParameter(dctx, (ZSTD_dParameter)id, val); } }
             while (calls++ < 2000000) { ZSTD_inBuffer ib; ZSTD_outBuffer ob; size_t osz = oc > cap - produced ? cap - produced : oc;
                 if (hl + 24 < sizeof hs && calls <= 12) hl += (size_t)sprintf(hs + hl, "%s%zu", hl ? "," : "", hint);
                 if (hint > n - consumed) { over = 1; break; }    /* asks for bytes beyond the end of the frame(s) */
